@@ -382,3 +382,19 @@ def stats(sc):
         for s in walk(r):
             d[s[0]] = d.get(s[0], 0) + 1
     return d
+
+
+def many_timers(rng, n):
+    """many activities with many DISTINCT pending dates at once, pushed in random order (exercises the wait queue proper)"""
+    out = []
+    for _ in range(n):
+        k = rng.choice([5, 6, 8, 12, 16])
+        roots = []
+        for i in range(k):
+            ds = rng.sample(range(1, 40), rng.choice([1, 2, 3]))
+            body = []
+            for j, d in enumerate(ds):
+                body += [['await', ['delay', d]], ['log', 100 * j + i]]
+            roots.append(body)
+        out.append(('many-timers', dict(start=0, till=None, roots=roots, nflags=1, tracked=[0], nlocks=1, nqueues=1, nchans=1, res=[])))
+    return out
